@@ -299,6 +299,11 @@ def _scope_cm(amb):
 
 
 # ---------------------------------------------------------------- the contract
+def _fail(fails, clause, expected, observed, sig):
+  fails.append({'clause': clause, 'expected': expected, 'observed': observed,
+                'signature': '%s %s' % (clause, sig)})
+
+
 class _Checker:
 
   def __init__(self, w, fails, eff, lo, hi, ovkind):
@@ -308,8 +313,7 @@ class _Checker:
     self.fn_leaves = []
 
   def fail(self, clause, expected, observed, sig):
-    self.fails.append({'clause': clause, 'expected': expected, 'observed': observed,
-                       'signature': '%s %s' % (clause, sig)})
+    _fail(self.fails, clause, expected, observed, sig)
 
   def entry(self, idx, ref, sig):
     """Log entry `idx` must be a run of ref's probe under the expected scope."""
@@ -388,18 +392,26 @@ def _one_call(w, case, call, fails, q_keys):
       kwargs[p] = sentinels[p] if kind == 'kw' else gin.REQUIRED
   w.flags.update(mut=call['mut'], callrefs=call['callrefs'])
   lo, nrec = len(w.log), len(w.recs)
-  with _scope_cm(amb):
-    (w.outer if call['outer'] else w.cons)(*args, **kwargs)
+  try:
+    with _scope_cm(amb):
+      (w.outer if call['outer'] else w.cons)(*args, **kwargs)
+  except Exception as e:  # pylint: disable=broad-except
+    tb = e.__traceback__
+    while tb.tb_next:
+      tb = tb.tb_next
+    if tb.tb_frame.f_code.co_filename == __file__:
+      raise                       # a bug of this module, not of gin
+    _fail(fails, 'no_unexpected_exception', 'no exception', repr(e)[:200], type(e).__name__)
+    return
   recs = w.recs[nrec:]
   if len(recs) != 1:
-    fails.append({'clause': 'evalref_fresh_per_call', 'expected': 'consumer ran once',
-                  'observed': len(recs), 'signature': 'evalref_fresh_per_call consumer runs'})
+    _fail(fails, 'evalref_fresh_per_call', 'consumer ran once', len(recs), 'consumer runs')
     return
   rec = recs[0]
   if rec['scope'] != eff:
-    fails.append({'clause': 'scoped_ref_exact_scope' if call['outer'] and case['via']
-                  else 'unscoped_ref_ambient_scope', 'expected': eff, 'observed': rec['scope'],
-                  'signature': 'consumer scope via=%s' % case['via']})
+    _fail(fails, 'scoped_ref_exact_scope' if call['outer'] and case['via']
+          else 'unscoped_ref_ambient_scope', eff, rec['scope'],
+          'scope of the consumer, via=%s' % case['via'])
     return
   hi = rec['n_entry']
   n_expected = 0
@@ -422,12 +434,11 @@ def _one_call(w, case, call, fails, q_keys):
   if hi - lo != n_expected:
     skipped = sorted({call['ov'][p] for p in effective
                       if call['ov'][p] in ('pos', 'kw') and _n_ev(effective[p])})
-    fails.append({
-        'clause': 'not_called_when_caller_supplies' if (hi - lo > n_expected and skipped)
-                  else 'evalref_fresh_per_call',
-        'expected': '%d probe runs' % n_expected, 'observed': '%d probe runs' % (hi - lo),
-        'signature': 'probe-run count %s caller-supplied=%s'
-                     % ('high' if hi - lo > n_expected else 'low', ','.join(skipped) or '-')})
+    _fail(fails, 'not_called_when_caller_supplies' if (hi - lo > n_expected and skipped)
+          else 'evalref_fresh_per_call',
+          '%d probe runs' % n_expected, '%d probe runs' % (hi - lo),
+          'probe-run count %s caller-supplied=%s'
+          % ('high' if hi - lo > n_expected else 'low', ','.join(skipped) or '-'))
   # calls the consumer itself made to delivered '@n' leaves: ran inside the consumer
   ck = _Checker(w, fails, eff, lo, len(w.log), 'inner')
   by_obj = {id(o): t for t, o in fn_leaves}
@@ -464,15 +475,13 @@ def _run_seq(case, fails):
             'query': {k: _stored_desc(gin.query_parameter(k)) for k in q_keys}}
   gin.parse_config(text)
   before = observe()
-  for ci, call in enumerate(case['calls']):
+  for call in case['calls']:
     _one_call(w, case, call, fails, q_keys)
     after = observe()
     for what in before:
       if after[what] != before[what]:
-        fails.append({'clause': 'config_unchanged_by_consumer', 'expected': 'unchanged ' + what,
-                      'observed': _diff(before[what], after[what]),
-                      'signature': 'config_unchanged_by_consumer %s mut=%s'
-                                   % (what, call['mut'])})
+        _fail(fails, 'config_unchanged_by_consumer', 'unchanged ' + what,
+              _diff(before[what], after[what]), '%s mut=%s' % (what, call['mut']))
         return
   op_mut = gin.operative_config_str()
   # twin run: same configuration and calls, consumer does not mutate
@@ -483,10 +492,8 @@ def _run_seq(case, fails):
     _one_call(w, case, dict(call, mut=False), scratch, q_keys)
   op_plain = gin.operative_config_str()
   if op_mut != op_plain and not fails:
-    fails.append({'clause': 'config_unchanged_by_consumer',
-                  'expected': 'operative_config_str as without mutation',
-                  'observed': _diff(op_plain, op_mut),
-                  'signature': 'config_unchanged_by_consumer operative_config_str'})
+    _fail(fails, 'config_unchanged_by_consumer', 'operative_config_str as without mutation',
+          _diff(op_plain, op_mut), 'operative_config_str')
 
 
 def _diff(a, b):
@@ -520,8 +527,8 @@ def _run_shared(fails):
     n = rec['n_entry'] - lo
     if (len(idxs) != 2 or n not in (1, 2) or any(i is None or not lo <= i < lo + n for i in idxs)
         or any(w.log[i][1] != ['a'] for i in idxs if i is not None and i < len(w.log))):
-      fails.append({'clause': 'evalref_fresh_per_call', 'expected': '1-2 fresh runs under [a]',
-                    'observed': [n, idxs], 'signature': 'evalref_fresh_per_call shared object'})
+      _fail(fails, 'evalref_fresh_per_call', '1-2 fresh runs under [a]', [n, idxs],
+            'shared object')
 
 
 def check(case):
